@@ -212,3 +212,39 @@ func firstLine(s string) string {
 	}
 	return s
 }
+
+// alphaSelfTest: robustness half of the thorough self-test. The property's packages are copied with every local variable,
+// parameter and receiver renamed (x → x_ar) — a variant that behaves exactly like the tree — and the quick rules are run on
+// it. They must be silent: a rule that reports something here depends on what a local is called.
+func alphaSelfTest(p *props.Property, repo, root string) (ok bool, reported []string, note string) {
+	self, _ := os.Executable()
+	tmp, err := os.MkdirTemp("", "kapalpha-")
+	if err != nil {
+		return true, nil, "skipped: " + err.Error()
+	}
+	defer os.RemoveAll(tmp)
+	gen := exec.Command(self, "-property", p.ID, "-repo", repo, "-root", root, "-alpha-out", tmp)
+	gen.Env = os.Environ()
+	if out, err := gen.CombinedOutput(); err != nil {
+		return true, nil, "skipped: alpha variant could not be written: " + firstLine(string(out))
+	}
+	child := exec.Command(self, "-property", p.ID, "-repo", repo, "-root", root, "-variant-overlay", tmp)
+	child.Env = os.Environ()
+	out, _ := child.Output()
+	var res variantResult
+	found := false
+	for _, l := range strings.Split(string(out), "\n") {
+		if strings.HasPrefix(l, "VARIANT ") {
+			found = json.Unmarshal([]byte(strings.TrimPrefix(l, "VARIANT ")), &res) == nil
+		}
+	}
+	switch {
+	case !found:
+		return true, nil, "skipped: variant run produced no result"
+	case res.LoadError != "":
+		return true, nil, "skipped: alpha variant does not type-check: " + firstLine(res.LoadError)
+	case len(res.Violated) > 0 || res.Undecided > 0:
+		return false, res.Violated, fmt.Sprintf("%d undecided", res.Undecided)
+	}
+	return true, nil, ""
+}
